@@ -1,4 +1,5 @@
 import VermouthProofs.C13_MappingProofs2
+import VermouthProofs.C13_MacroProofs
 /-!
 # C13 — new-style `.mapping` files: what travels with the mapped atoms, the `!` marker, implicit residue
 numbers, and the integer spellings `int()` accepts
@@ -109,4 +110,44 @@ theorem int_body_shape (cs : List Char) (h : intBodyOk cs = true) :
     simp only [intBodyOk, Bool.and_eq_true] at h
     exact ⟨⟨c, r, rfl, h.1⟩, hrest (c :: r) h.2⟩
 
+/-- **Macros are substituted with the value in force at the line**: in a file that the macro pre-pass
+accepts, the content line at position `pre.length` is the substitution of the written line with the
+definitions accumulated by the `[ macros ]` lines above it (`defsAfter`: any number of `[ macros ]`
+sections, anywhere), and a definition added last is the value of its name - an earlier definition of
+the same name no longer counts, the other names are unaffected. -/
+theorem macros_value_in_force (T : List Path) :
+    (∀ (pre : List Line) (sec : Path) (ms : List (String × String)) (t : String) (post out : List Line),
+      expandMacros T sec ms (pre ++ .content t :: post) = some out →
+      ∃ sec' ms' t', defsAfter T sec ms pre = some (sec', ms') ∧ substMacros ms' t = some t' ∧
+        out[pre.length]? = some (.content t')) ∧
+    (∀ (ms : List (String × String)) (n v : String),
+      lookupMacro (ms ++ [(n, v)]) n = some v ∧
+      ∀ n', n' ≠ n → lookupMacro (ms ++ [(n, v)]) n' = lookupMacro ms n') :=
+  ⟨fun pre => expand_in_force T pre, lookupMacro_last⟩
+
+/-- the same line text before and after a redefinition gives two different lines -/
+example : expandMacros [["macros"], ["link"]] [] []
+    [.header "macros", .content "k 1250", .header "link", .content "A B $k",
+     .header "macros", .content "k 7500", .header "link", .content "A B $k"]
+    = some [.header "macros", .content "k 1250", .header "link", .content "A B 1250",
+            .header "macros", .content "k 7500", .header "link", .content "A B 7500"] := by decide
+
+/-- **A `[ non-edges ]` line of a link** appends exactly one entry (key of the first atom, attributes of
+the second atom) and creates no node; the attributes are the link-wide ones (`[ link ]` attribute lines)
+overridden by what the line says about the atom: an attribute the line does not set keeps the link-wide
+value, an attribute the line sets has the line's value. -/
+theorem non_edge_carries_link_attributes (line : String) (c c' : Ctx)
+    (h : edgeLine .link true line c = some c') :
+    (∃ k0 x, c'.nonEdges = c.nonEdges ++ [nonEdgeOf c k0 x] ∧ c'.nodes = c.nodes ∧ c'.inters = c.inters ∧
+      c'.allNodes = c.allNodes) ∧
+    (∀ (k0 : String) (x : Attrs) (k : String), (∀ e ∈ x, e.1 ≠ k) →
+      (nonEdgeOf c k0 x).2.get k = c.allNodes.get k) ∧
+    (∀ (k0 : String) (pre post : Attrs) (k : String) (v : JVal), (∀ e ∈ post, e.1 ≠ k) →
+      (nonEdgeOf c k0 (pre ++ (k, v) :: post)).2.get k = some v) :=
+  ⟨edgeLine_non_edge line c c' h,
+   fun _ x k hx => Mapping.updAttrs_untouched c.allNodes x k hx,
+   fun _ pre post k v hp => Mapping.updAttrs_last_wins c.allNodes pre post k v hp⟩
+
+example : (edgeLine .link true "BB SC1" { allNodes := [("resname", .str "ALA")] }).map (·.nonEdges)
+    = some [("BB", [("resname", .str "ALA"), ("order", .int 0), ("atomname", .str "SC1")])] := by decide
 end C13.Props
